@@ -40,22 +40,22 @@ type Violation struct {
 }
 
 type Stats struct {
-	Scenario       string         `json:"scenario"`
-	Executions     int            `json:"executions"`
-	Points         int            `json:"decision_points"`
-	Steps          int            `json:"steps"`
-	Outcomes       int            `json:"distinct_outcomes"`
-	Nontrivial     int            `json:"executions_with_context_switch"`
-	BoundCompleted int            `json:"bound_completed"`
-	BoundAsked     int            `json:"bound_asked"`
-	PerBound       []int          `json:"executions_per_bound"`
-	HorizonHits    int            `json:"horizon_hits"`
-	Capped         bool           `json:"capped"`
-	MaxThreads     int            `json:"max_threads"`
-	Violations     []Violation    `json:"violations,omitempty"`
-	Known          []string       `json:"known_findings,omitempty"`
-	Sample         []string       `json:"sample_log,omitempty"`
-	SampleSchedule []vrt.Choice   `json:"sample_schedule,omitempty"`
+	Scenario       string       `json:"scenario"`
+	Executions     int          `json:"executions"`
+	Points         int          `json:"decision_points"`
+	Steps          int          `json:"steps"`
+	Outcomes       int          `json:"distinct_outcomes"`
+	Nontrivial     int          `json:"executions_with_context_switch"`
+	BoundCompleted int          `json:"bound_completed"`
+	BoundAsked     int          `json:"bound_asked"`
+	PerBound       []int        `json:"executions_per_bound"`
+	HorizonHits    int          `json:"horizon_hits"`
+	Capped         bool         `json:"capped"`
+	MaxThreads     int          `json:"max_threads"`
+	Violations     []Violation  `json:"violations,omitempty"`
+	Known          []string     `json:"known_findings,omitempty"`
+	Sample         []string     `json:"sample_log,omitempty"`
+	SampleSchedule []vrt.Choice `json:"sample_schedule,omitempty"`
 	outcomes       map[string]int
 }
 
